@@ -87,6 +87,13 @@ func newPos(l *lookup, fileName, funcName string, line, column int) pos {
 	// return struct{}{}
 	fileNameIdx := l.Index("#" + fileName)
 	funcNameIdx := l.Index("#" + funcName)
+	// line and column have 16 bits each: larger ones are reported as 65535 instead of spilling into their neighbours
+	if line > 0xffff {
+		line = 0xffff
+	}
+	if column > 0xffff {
+		column = 0xffff
+	}
 	return pos((fileNameIdx << 48) | (funcNameIdx << 32) | (line << 16) | column)
 }
 
